@@ -114,15 +114,25 @@ Definition ex_form : data :=
              FField t_list_multi (str "features") [OListItem (str "Contests") (str "contests"); OValue (str "news"); OValue (str "")];
              FField t_jid_multi (str "invitelist") [OValue j1; OValue (str "not a jid@")] ].
 
+Definition ex_d1 : data :=
+  match set ex_form (str "description") (VStr (str "line 1" ++ [nl; nl] ++ str "line 3" ++ [nl])) with
+  | Ok (d, _, _) => d | _ => ex_form end.
+Definition ex_sub : tree :=
+  match submit (o_jid ex_or) (Some ex_d1) with Ok (t, _) => t | _ => Text [] end.
+Definition ex_dec : data := match unmarshal ex_sub with Ok n => n | _ => zero_data end.
+
 Example ex_form_run :
-  exists d1 t, set ex_form (str "description") (VStr (str "line 1" ++ [nl; nl] ++ str "line 3" ++ [nl])) = Ok (d1, true, false) /\
-    submit (o_jid ex_or) (Some d1) = Ok (t, false) /\      (* botname is required and not set *)
-    exists n, unmarshal t = Ok n /\ unmarshal (wire1 t) = Ok n /\
-      map (fun f => (var f, value f)) (fields n) =
-        [ (str "FORM_TYPE", [str "jabber:bot"]); (str "botname", []);
-          (str "description", [str "line 1"; str "line 3"]);
-          (str "public", [str "true"]); (str "features", [str "news"]); (str "invitelist", [j1]) ].
-Proof. eexists; eexists. split; [reflexivity|]. split; [vm_compute; reflexivity|]. eexists. repeat split; vm_compute; reflexivity. Qed.
+  set ex_form (str "description") (VStr (str "line 1" ++ [nl; nl] ++ str "line 3" ++ [nl])) = Ok (ex_d1, true, false) /\
+  submit (o_jid ex_or) (Some ex_d1) = Ok (ex_sub, false) /\      (* botname is required and not set *)
+  unmarshal ex_sub = Ok ex_dec /\ unmarshal (wire1 ex_sub) = Ok ex_dec /\
+  map (fun f => (var f, value f)) (fields ex_dec) =
+    [ (str "FORM_TYPE", [str "jabber:bot"]); (str "botname", []);
+      (str "description", [str "line 1"; str "line 3"]);
+      (str "public", [str "true"]); (str "features", [str "news"]); (str "invitelist", [j1]) ].
+Proof.
+  split; [vm_compute; reflexivity|]. split; [vm_compute; reflexivity|]. split; [vm_compute; reflexivity|].
+  split; vm_compute; reflexivity.
+Qed.
 
 Example ex_form_title : space_replace (title ex_form) = str "Bot Configuration" /\
                         nonempty_runs (instructions ex_form) = [str "Fill out this form"; str "please"].
